@@ -1,8 +1,6 @@
 SPECIFICATION HSpec
 CONSTANTS
   Alphabet = "G"
-  XMax = 0
-  XShape = "all"
   HNat <- MCNat
   HMol <- MCMol
   HWins <- MCWins
